@@ -39,6 +39,7 @@ CLASSES = ["L1Reg", "L1Reg-arr", "L2Reg", "L2Reg-y", "L2Reg-L1", "L2Reg-Box", "L
            "PsdProj", "Box", "Box-arr", "NoOp", "Conj-L1Reg", "Conj-L2Reg-y", "Conj-L2Proj",
            "Conj-LInfProj", "Conj-L1Proj", "Conj-Box", "Conj-Stack", "Stack", "Stack-alpha",
            "Stack-Conj", "Unitary-FFT", "Unitary-Haar", "Unitary-Transpose", "Unitary-Conj",
+           "Stack-nested", "Conj-Conj-L1Reg", "Conj-Conj-L2Proj", "Stack-of-one",
            "fn-soft_thresh", "fn-l1_proj", "fn-l2_proj", "fn-linf_proj", "fn-psd_proj",
            "fn-hard_thresh"]
 INPUTS = ["gauss", "gauss-big", "zeros", "boundary", "interior", "ties", "tiny", "huge",
@@ -140,11 +141,31 @@ def build(cls, rng, cplx):
         return PR.BoxConstraint(shape, lo, hi), shape, {"k": "box", "lo": lo, "hi": hi}
     if cls == "NoOp":
         return PR.NoOp(shape), shape, {"k": "free"}
-    if cls.startswith("Conj-") and cls != "Conj-Stack":
+    if cls.startswith("Conj-") and cls != "Conj-Stack" and not cls.startswith("Conj-Conj-"):
         inner = {"L1Reg": "L1Reg", "L2Reg-y": "L2Reg-y", "L2Proj": "L2Proj-y",
                  "LInfProj": "LInfProj-bias", "L1Proj": "L1Proj", "Box": "Box"}[cls[5:]]
         p, s, info = build(inner, rng, cplx)
         return PR.Conj(p), s, {"k": "real" if inner == "Box" else "free"}
+    if cls.startswith("Conj-Conj-"):
+        # nesting depth two: the conjugate of the conjugate is the function itself
+        p, s, info = build(cls[10:] if cls[10:] != "L2Proj" else "L2Proj-y", rng, cplx)
+        return PR.Conj(PR.Conj(p)), s, {"k": "free"}
+    if cls in ("Stack-nested", "Stack-of-one"):
+        # stacks inside stacks (and a stack with a single member): the splitting of the
+        # flattened vector recurses
+        def leafp():
+            return build(pick(rng, ["L1Reg", "L2Reg-y", "L2Proj-y", "LInfProj", "NoOp"]),
+                         rng, cplx)[0]
+        if cls == "Stack-of-one":
+            st = PR.Stack([leafp()])
+        else:
+            inner = PR.Stack([leafp() for _ in range(int(rng.integers(1, 4)))])
+            members = [leafp() for _ in range(int(rng.integers(0, 3)))]
+            members.insert(int(rng.integers(0, len(members) + 1)), inner)
+            if rng.random() < 0.4:
+                members.append(PR.Stack([PR.Stack([leafp()]), leafp()]))
+            st = PR.Stack(members)
+        return st, list(st.shape), {"k": "free", "stack": ["nested"]}
     if cls in ("Stack", "Stack-alpha", "Conj-Stack", "Stack-Conj"):
         names = [pick(rng, ["L1Reg", "L2Reg-y", "L2Proj-y", "LInfProj", "NoOp", "L1Proj"])
                  for _ in range(int(rng.integers(2, 4)))]
